@@ -90,6 +90,20 @@ def run(rng, tier, model_ok):
     for i, q in enumerate(sub):
         if fwd[i].get("results") != rev[i].get("results") or (i < len(fresh) and fresh[i].get("results") != fwd[i].get("results")):
             failures.append({"input": q, "why": "the answer depends on which queries ran before it on the same database"})
+    # a phrase is reported as it was written: two blanks, a tab, a no-break space between its words
+    irr = []
+    for p in [x for x in phrases if " " in x][: (12 if tier == "quick" else 200)]:
+        for sep in ("  ", "\t", "\u00a0", " \t "):
+            ph = p.replace(" ", sep)
+            irr.append(("%s / 2" % ph, ph))
+            irr.append(("2 * (%s)" % ph, ph))
+    irep = vlib.run_impl(["Q %s d" % vlib.hx(q) for q, _ in irr])
+    for (q, ph), r in zip(irr, irep):
+        got = [d["phrase"] for d in r.get("desc", [])]
+        res = r.get("results") or []
+        if len(res) == 1 and "ok" in res[0] and got != [ph]:
+            failures.append({"input": q, "why": "the phrase looked up is %r, the description reports %r" % (ph, got)})
+    stats["irregular_blank_phrases"] = len(irr)
     # several expressions in one query: what the successful ones used is reported whatever happens to the others
     multi = []
     facts2 = [x for x in phrases if x not in ("nosuchfact", "no such fact anywhere")]
